@@ -88,6 +88,9 @@ StepClauses(e, p, st, k, a, v) ==
         /\ Drift(e.mg = SumTab(a.bag, Tab.e.mg) /\ e.eg = SumTab(a.bag, Tab.e.eg)
                  /\ e.ph = a.phase, "C15", "table-sum", [fen |-> e.fen])
         /\ Viol(~e.evp, "C16", "eval-panic", [fen |-> e.fen])
+        \* static exchange evaluation is a function of the position: the live game and the position set up afresh agree
+        /\ Viol(e.seel = e.seef, "C20", "exchange-verdict-depends-on-how-the-position-was-reached",
+                [fen |-> e.fen, live |-> e.seel, fresh |-> e.seef])
         \* FEN writer
         /\ Viol(e.fen = FenOf(p), "C06", "writer", [got |-> e.fen, want |-> FenOf(p)])
         \* draws
